@@ -5,6 +5,7 @@
 From Coq Require Import String List Bool Permutation Sorted.
 Import ListNotations.
 Require Import Verif.Determ.SortPerm Verif.Determ.MapOrder Verif.Determ.MapOrderProps Verif.Determ.Classified Verif.Gen.MapRanges.
+Require Verif.Determ.Generators.
 
 (* base lemma: two sorted permutations of a list under a total order are equal (strings in Go's byte order) *)
 Theorem C19_sort_perm_unique : forall l1 l2 : list string,
@@ -91,3 +92,39 @@ Theorem C19_classified_sorted_ranges_order_independent : forall r, In r ranges -
     emission_order String.leb (mr_class r) ord1 keys = emission_order String.leb (mr_class r) ord2 keys.
 Proof. exact classified_sorted_ranges_order_independent. Qed.
 Print Assumptions C19_classified_sorted_ranges_order_independent.
+
+(* PER GENERATOR (Determ/Generators.v): the models built by the sub-tasks that own these generators take an explicit
+   iteration oracle; the uniform statement G ord1 m = G ord2 m for any two permuting oracles, at the tables / rules
+   of the CURRENT source (Gen.ExportTables, Gen.ConcShape, Gen.DbTables, Gen.ImportRules). *)
+Theorem C19_openapi3_export_order_independent : forall o1 o2 a,
+  Export.GoMapProps.perm_oracle o1 -> Export.GoMapProps.perm_oracle o2 -> Export.OasExportProps.wf_app a ->
+  Export.OasExport.export3_with Gen.ExportTables.tables3_of_source o1 a = Export.OasExport.export3_with Gen.ExportTables.tables3_of_source o2 a.
+Proof. exact Generators.openapi3_export_order_independent. Qed.
+Print Assumptions C19_openapi3_export_order_independent.
+
+Theorem C19_postprocess_order_independent : forall m ord1 ord2, Conc.PostProps.map_order ord1 -> Conc.PostProps.map_order ord2 ->
+  Conc.Post.post_process Gen.ConcShape.sorted_apps ord1 m = Conc.Post.post_process Gen.ConcShape.sorted_apps ord2 m.
+Proof. exact Generators.postprocess_order_independent. Qed.
+Print Assumptions C19_postprocess_order_independent.
+
+Theorem C19_relmod_normalize_order_independent : forall cm am o1 o2 m,
+  Generators.relmod_perm o1 -> Generators.relmod_perm o2 -> Generators.relmod_wf m ->
+  Relmod.Model.normalize cm am (Generators.reread o1 m) = Relmod.Model.normalize cm am (Generators.reread o2 m).
+Proof. exact Generators.relmod_normalize_order_independent. Qed.
+Print Assumptions C19_relmod_normalize_order_independent.
+
+(* partial for the database script as a whole: equal depth of every table under any two oracles *)
+Theorem C19_db_depth_order_independent_partial : forall m d ord1 ord2 fuel,
+  Db.DepthProps.wf m -> Db.DepthProps.is_depth m d -> Db.DepthProps.perm_oracle ord1 -> Db.DepthProps.perm_oracle ord2 -> (length m < fuel)%nat ->
+  exists st1 st2, Db.Depth.depth_map Gen.DbTables.depth_stop fuel ord1 m = Db.Depth.Ok st1 /\
+                  Db.Depth.depth_map Gen.DbTables.depth_stop fuel ord2 m = Db.Depth.Ok st2 /\
+    forall tb, In tb m -> Db.Depth.depth_get (Db.Depth.complete st1) (Db.Depth.tname tb) = Db.Depth.depth_get (Db.Depth.complete st2) (Db.Depth.tname tb).
+Proof. exact Generators.db_depth_order_independent. Qed.
+Print Assumptions C19_db_depth_order_independent_partial.
+
+Theorem C19_imports_schedule_independent : forall g root s1 s2,
+  Imports.Collect.quiescent (Imports.Collect.run Gen.ImportRules.current_rules g 0 root s1) = true ->
+  Imports.Collect.quiescent (Imports.Collect.run Gen.ImportRules.current_rules g 0 root s2) = true ->
+  Imports.Current.final_cur g root 0 s1 = Imports.Current.final_cur g root 0 s2.
+Proof. exact Generators.imports_schedule_independent. Qed.
+Print Assumptions C19_imports_schedule_independent.
